@@ -52,6 +52,15 @@ CLAIMS = {
              "exported nodes/edges exact, every edge endpoint and parent reference is an exported id, ids unique, the summary lists each role "
              "set once in sorted order.",
         note="trusted: TLC, the projection (incl. ranks for sorted order); the graph is read through LineageRunner._sql_holder"),
+    "C05": dict(
+        design="5/C05, 3.4",
+        technique="TLA+ model checking (TLC) of Split.tla over every lexeme sequence + replay of every enumerated script into the real splitter / LineageRunner + TLC trace validation (Trace_Script) of script-vs-fold-of-solo-statements",
+        text="TLC enumerates every script of <= 7 lexemes (bodies with semicolons inside literals/quoted identifiers, separators, line/block "
+             "comments containing semicolons, blanks; T-SQL newline-only mode) and checks the splitter mechanism against Statements(script); "
+             "every script <= 5 (thorough 6) lexemes is split by the real helpers, thousands run through LineageRunner (also tsql without "
+             "semicolons under scoped override and environment variable); the script's table summary must be accepted by the ideal fold "
+             "of Script.tla over the statements analysed alone, and its column pairs must equal those of the combined solo holders.",
+        note="trusted: TLC, the lexeme renderer, sqlparse/sqlfluff as parsers; statements compared modulo comments, whitespace and trailing semicolons"),
 }
 
 NOT_YET = "check not built yet in this round; planned as described in DESIGN.md section 5"
